@@ -47,6 +47,8 @@ def draw_cfg(ch, base=None):
         "compat_bundles": ch.chance(1, 4),
         "pr_through_expr": True,  # port references to ports wired to slices / concats
         "fan": ch.weighted([(2, 0), (1, 1), (1, 2)], "fan"),  # several bundle ports of one type per module, re-used sources
+        "adv_members": ch.chance(1, 6),  # bundle members named like a nested member's flattened path
+        "ext_domains": ch.chance(1, 4),  # same-named external modules in two domains
     }
     if base:
         cfg.update(base)
@@ -128,6 +130,14 @@ class Gen:
                     sub = ch.pick(self.bids, "sub")
                     if self._depth(sub) < 2:
                         subs.append([SUB_NAMES[j], sub, ch.chance(1, 3)])
+            if subs and cfg.get("adv_members"):
+                # a scalar member named like the underscore-joined path of a nested member:
+                # both flatten to the same `inst_sub_member` name (C05)
+                sname, sub, _f = ch.pick(subs, "advsub")
+                leaf = ch.pick(list(self.d.bundles[sub]["sigs"]), "advleaf")
+                nm = f"{sname}_{leaf}"
+                if nm not in [s_[0] for s_ in sigs]:
+                    sigs.append([nm, ch.rint(1, min(3, cfg["max_width"]), "advw"), "s"])
             self.emit(["bundle", k, f"B{k}", sigs, subs])
             self.bids.append(k)
         if cfg["compat_bundles"] and self.bids:
@@ -149,7 +159,11 @@ class Gen:
         for k in range(cfg["n_exts"]):
             nports = ch.rint(1, 4, "xports")
             ports = [[EXT_PORTS[j], ch.rint(1, cfg["max_width"], "xw"), ch.pick(["n", "i", "o", "io"])] for j in range(nports)]
-            self.emit(["ext", k, f"X{k}", ports])
+            if k == 1 and cfg.get("ext_domains"):
+                # the name of external module 0, in another domain
+                self.emit(["ext", k, "X0", ports, "verifb"])
+            else:
+                self.emit(["ext", k, f"X{k}", ports])
 
     # ------------------------------------------------------------------ modules
     def gen_module(self, mid, name=None):
